@@ -101,10 +101,18 @@ func c15Contexts(rng *gen.Rand, g *gen.TreeGen) func(h *gen.Expr) *gen.Expr {
 func c15(r *mon.Run) {
 	r.Rule = "law 1: for seeded random trees A, B of all fragments and random typed documents d, Search('A | B', d) is compared with Search(B, Search(A, d)) where the intermediate value is handed on as the Go value returned (no JSON round trip), in value and in error-ness; " +
 		"law 2: for a random tree E with a JSON value v = Search(E, d) and a random context C[.] of 1-3 layers whose hole is evaluated against the root (operands of || && ! comparators, multi-select members, function arguments, heads of chains and pipes), Search(C[E], d) is compared with Search(C[literal(v)], d). " +
-		"law 1 additionally on every pair of 23 left sides (projections / by-expression calls whose right-hand side fails on only some elements, null-producing paths, large integer literals) x 23 right sides (indices, slices, length, dotted paths ending in a function call, comparisons with large literals). When the reference model allows more than one member order, both sides are only required to be allowed results. Non-trivial = distinct (A, B, d) where Search(A, d) is neither null nor an error (law 1), distinct (C, E, d) with a non-null v (law 2)."
+		"law 2 additionally with the hole in never-evaluated positions (behind short-circuiting || / &&, right of projections over null / empty lists, filters over empty lists) for every function x every JSON type; the composed side of each law goes through one-shot Search and through Compile+Search alternately. law 1 additionally on every pair of 23 left sides (projections / by-expression calls whose right-hand side fails on only some elements, null-producing paths, large integer literals) x 23 right sides (indices, slices, length, dotted paths ending in a function call, comparisons with large literals). When the reference model allows more than one member order, both sides are only required to be allowed results. Non-trivial = distinct (A, B, d) where Search(A, d) is neither null nor an error (law 1), distinct (C, E, d) with a non-null v (law 2)."
 	r.Floor = 2000
 	r.Assumptions = []string{"metamorphic: both sides of each law are computed by the implementation under test; the reference model is used only to recognise order nondeterminism",
 		"literals are spelled with shortest round-trip floats (gen.FormatNumber)"}
+	// the composed side of each law goes through one-shot Search for even case numbers and through
+	// Compile + Search for odd ones (a rewrite or a check that only Compile performs shows there)
+	via := func(i int, expr string, doc interface{}) mon.Observed {
+		if i%2 == 1 {
+			return apiCompiledSearch(expr, doc)
+		}
+		return apiSearch(expr, doc)
+	}
 	n1 := tierPick(r, 40000, 1200000)
 	law1 := mon.Workload{Name: "pipe-composition", N: n1,
 		Do: func(i int, t *mon.Tally) {
@@ -122,7 +130,7 @@ func c15(r *mon.Run) {
 				}
 				t.Eval()
 				whole := gen.Pipe(A, B)
-				ow := apiSearch(gen.Spell(whole), mon.DeepCopy(doc))
+				ow := via(i, gen.Spell(whole), mon.DeepCopy(doc))
 				oa := apiSearch(gen.Spell(A), mon.DeepCopy(doc))
 				var ob mon.Observed
 				if oa.Panicked || oa.Err != nil {
@@ -184,8 +192,8 @@ func c15(r *mon.Run) {
 			}
 			T1 := C(E)
 			T2 := C(gen.LitVal(oe.V))
-			o1 := apiSearch(gen.Spell(T1), mon.DeepCopy(doc))
-			o2 := apiSearch(gen.Spell(T2), mon.DeepCopy(doc))
+			o1 := via(i, gen.Spell(T1), mon.DeepCopy(doc))
+			o2 := via(i, gen.Spell(T2), mon.DeepCopy(doc))
 			if o1.Panicked || o2.Panicked {
 				r.Violate(&mon.Violation{Workload: "referential-transparency", Index: i, API: "Search", Expr: gen.Spell(T1), Doc: doc, Expected: "no panic", Observed: o1.String() + " / " + o2.String(), Class: "panic"})
 				return
@@ -263,7 +271,7 @@ func c15(r *mon.Run) {
 			A, B, doc := As[i/(nB*nD)], Bs[(i/nD)%nB], sdocs[i%nD]
 			t.Eval()
 			whole := gen.Pipe(A, B)
-			ow := apiSearch(gen.Spell(whole), mon.DeepCopy(doc))
+			ow := via(i, gen.Spell(whole), mon.DeepCopy(doc))
 			oa := apiSearch(gen.Spell(A), mon.DeepCopy(doc))
 			ob := oa
 			if !oa.Panicked && oa.Err == nil {
@@ -288,5 +296,61 @@ func c15(r *mon.Run) {
 				t.Count("shaped: A errors, the pipe must error")
 			}
 		}}
-	r.Exec(law1, law2, shaped)
+	// law 2 where the hole is never evaluated: behind a short-circuiting || / &&, on the right of a projection
+	// over null or an empty list, in a filter over an empty list. Whatever the value (also one the enclosing
+	// function would reject), writing it as a literal changes nothing: every function x every JSON type x 6
+	// dead positions, both entry points.
+	fnames := ref.FunctionNames()
+	dvals := []string{"n", "s", "b", "z", "an", "as", "o", "ao"}
+	ddoc := docs.J(`{"n":-1.5,"s":"ann","b":true,"z":null,"an":[2,1],"as":["b","a"],"o":{"n":1},"ao":[{"n":2},{"n":1}],"t":"yes","empty":[],"f":false}`)
+	const dpos = 6
+	dead := mon.Workload{Name: "substitution-in-unevaluated-positions", N: len(fnames) * len(dvals) * dpos * 2,
+		Do: func(i int, t *mon.Tally) {
+			k := i / 2
+			fn := fnames[k/(len(dvals)*dpos)]
+			key := dvals[k/dpos%len(dvals)]
+			val := ddoc.(map[string]interface{})[key]
+			ctx := func(h *gen.Expr) *gen.Expr {
+				call := gen.Func(fn, h)
+				if sg := ref.Signatures[fn]; len(sg.Params) == 2 {
+					if sg.Params[0][0] == "expref" {
+						call = gen.Func(fn, gen.ExpRef(gen.Current()), h)
+					} else if sg.Params[1][0] == "expref" {
+						call = gen.Func(fn, h, gen.ExpRef(gen.Current()))
+					} else {
+						call = gen.Func(fn, h, h)
+					}
+				}
+				switch k % dpos {
+				case 0:
+					return gen.Or(gen.Field("t"), call)
+				case 1:
+					return gen.And(gen.Field("f"), call)
+				case 2:
+					return gen.Chain(gen.Field("z"), gen.StListStar(), gen.StMultiList(call))
+				case 3:
+					return gen.Chain(gen.Field("empty"), gen.StFilter(call))
+				case 4:
+					return gen.MultiList(gen.Or(gen.Raw("x"), call), gen.And(gen.LitJSON("null"), call))
+				default:
+					return gen.Chain(gen.Field("empty"), gen.StListStar(), gen.StMultiHash(keyA("k"), []*gen.Expr{call}))
+				}
+			}
+			T1, T2 := ctx(gen.Field(key)), ctx(gen.LitVal(val))
+			t.Eval()
+			o1 := via(i, gen.Spell(T1), mon.DeepCopy(ddoc))
+			o2 := via(i, gen.Spell(T2), mon.DeepCopy(ddoc))
+			if o1.Panicked || o2.Panicked || !sameOutcome(o1, o2) {
+				r.Violate(&mon.Violation{Workload: "substitution-in-unevaluated-positions", Index: i, API: []string{"Search", "Compile+Search"}[i%2], Expr: gen.Spell(T1), Doc: ddoc,
+					Expected: "same as with " + key + " replaced by the literal of its value: " + gen.Spell(T2) + " = " + o2.String(), Observed: o1.String(), Class: "substitution law (unevaluated position)"})
+				return
+			}
+			t.Nontrivial("dead:" + gen.Spell(T1))
+			if o1.Err == nil {
+				t.Count("dead positions: both sides give the same value")
+			} else {
+				t.Count("dead positions: both sides error")
+			}
+		}}
+	r.Exec(law1, law2, shaped, dead)
 }
